@@ -1119,7 +1119,9 @@ def _r(qp, rng, w, p):
 @recipe("CommutingEvolution")
 def _r(qp, rng, w, p):
     H = qp.ops.LinearCombination([float(rng.uniform(0.2, 1)), float(rng.uniform(0.2, 1))], [qp.X(w[0]) @ qp.Y(w[1]), qp.Y(w[0]) @ qp.X(w[1])])
-    return qp.CommutingEvolution(H, p.scalar(), frequencies=(2,))
+    if rng.random() < 0.5:
+        return qp.CommutingEvolution(H, p.scalar(), frequencies=(2,))
+    return qp.CommutingEvolution(H, p.scalar(), frequencies=(2,), shifts=(float(rng.uniform(0.5, 2.5)),))
 
 
 @recipe("QDrift")
